@@ -684,10 +684,20 @@ func init() {
 	})
 }
 
-// judgeNested: also judge failures inside a nested reroute pipeline whose
-// client address is itself a possible rewrite output (see runPipe). Off: the
-// unchanged code translates such results twice; see NOTES.md.
-var judgeNested = os.Getenv("VERIF_C09_JUDGE_NESTED") == "1"
+// judgeNested: failures inside the nested reroute pipeline of a client
+// recipient whose own address is a possible rewrite output (chains) are judged
+// like all others since 43fc457 (msgpipeline keeps a reverse map per pipeline
+// object). VERIF_C09_JUDGE_NESTED=0 turns that class into a counter again
+// (debugging on trees without that fix).
+var judgeNested = os.Getenv("VERIF_C09_JUDGE_NESTED") != "0"
+
+// modelEv is one predicted target call of the pipeline routing model.
+type modelEv struct {
+	target string
+	rcpt   string
+	final  string // outer final address it comes from
+	nested bool   // the target sits inside the reroute
+}
 
 func hash01(parts ...string) float64 {
 	h := fnv.New64a()
@@ -865,8 +875,6 @@ func runPipe(t *testing.T, r *rep.Reporter, c *rep.Case, idx int) {
 	// successive scopes are walked by one recipient) - that is observed, not
 	// predicted.
 	var chainNamed []string
-	innerTbl := level2[2]
-	isInner := func(m map[string][]string) bool { return fmt.Sprintf("%p", m) == fmt.Sprintf("%p", innerTbl) }
 	nChains := 0
 	if p.Chance(1, 2) {
 		nChains = p.Range(1, 2)
@@ -878,7 +886,7 @@ func runPipe(t *testing.T, r *rep.Reporter, c *rep.Case, idx int) {
 			members[j] = fmt.Sprintf("k%d_%d@d%d.example", ci, j, p.Intn(3))
 		}
 		sameScope := p.Chance(1, 2) // the classic: all steps in one table
-		scope0 := p.Intn(2)
+		scope0 := p.Intn(3)         // 2 = the nested table (steps apply to members that reach it)
 		for j := 0; j < steps; j++ {
 			key := members[j]
 			outs := []string{members[j+1]}
@@ -888,38 +896,17 @@ func runPipe(t *testing.T, r *rep.Reporter, c *rep.Case, idx int) {
 			_, dom := splitAddr(key)
 			var cands []map[string][]string
 			if sameScope {
-				cands = []map[string][]string{[]map[string][]string{global, source}[scope0]}
+				cands = []map[string][]string{[]map[string][]string{global, source, level2[2]}[scope0]}
 			} else {
 				cands = []map[string][]string{global, source}
 				if dom == "d1.example" {
 					cands = append(cands, level2[1], level2[1])
 				}
 				if dom == "d2.example" {
-					cands = append(cands, level2[2])
+					cands = append(cands, level2[2], level2[2]) // incl. chains inside the nested table
 				}
 			}
 			tbl := prng.Pick(p, cands)
-			if isInner(tbl) {
-				// never a chain INSIDE the nested table (an inner output that is an
-				// inner key): the unchanged code can then report under an address
-				// nobody supplied; kept out of the workload, see NOTES.md
-				bad := false
-				for k, vs := range tbl {
-					for _, v := range vs {
-						if v == key {
-							bad = true
-						}
-					}
-					for _, o := range outs {
-						if o == k {
-							bad = true
-						}
-					}
-				}
-				if bad {
-					tbl = global
-				}
-			}
 			if _, dup := tbl[key]; !dup {
 				tbl[key] = outs
 			}
@@ -931,9 +918,7 @@ func runPipe(t *testing.T, r *rep.Reporter, c *rep.Case, idx int) {
 	}
 	clients = append(clients, chainNamed...)
 
-	// Bookkeeping for the not-judged sets (from the generated tables, never
-	// from the pipeline's own OriginalRcpts map): every address some table can
-	// produce; keys of the nested pipeline's table; whether that table chains.
+	// every address some table can produce (signature class "chained" only)
 	tableValue := map[string]bool{}
 	for _, tbl := range []map[string][]string{global, source, level2[1], level2[2]} {
 		for _, vs := range tbl {
@@ -942,20 +927,41 @@ func runPipe(t *testing.T, r *rep.Reporter, c *rep.Case, idx int) {
 			}
 		}
 	}
-	innerKey := map[string]bool{}
-	for k := range level2[2] {
-		innerKey[strings.ToLower(k)] = true
+
+	// Reference model of the generated configuration's routing: which
+	// (target, effective recipient) calls a client recipient leads to, in
+	// order, and through which OUTER final address (the address the outer
+	// pipeline ends up with; for d2.example it is handed to the nested
+	// pipeline and no target ever sees it). Used only to find genuine N-to-1
+	// collisions on such intermediate addresses; it is checked against the
+	// observed target calls of every AddRcpt and a disagreement makes the
+	// transaction inconclusive.
+	lookup := func(tbl map[string][]string, a string) []string {
+		if v := tbl[strings.ToLower(a)]; len(v) > 0 {
+			return v
+		}
+		return []string{a}
 	}
-	innerChain := false
-	for _, vs := range level2[2] {
-		for _, v := range vs {
-			if innerKey[strings.ToLower(v)] {
-				innerChain = true
+	model := func(a string) []modelEv {
+		var out []modelEv
+		for _, g := range lookup(global, a) {
+			for _, sa := range lookup(source, g) {
+				_, dom := splitAddr(strings.ToLower(sa))
+				switch dom {
+				case "d1.example":
+					for _, f := range lookup(level2[1], sa) {
+						out = append(out, modelEv{tgts[1].InstName, f, f, false}, modelEv{tgts[2].InstName, f, f, false})
+					}
+				case "d2.example":
+					for _, in := range lookup(level2[2], sa) {
+						out = append(out, modelEv{tgts[3].InstName, in, sa, true})
+					}
+				default:
+					out = append(out, modelEv{tgts[0].InstName, sa, sa, false})
+				}
 			}
 		}
-	}
-	if innerChain {
-		t.Fatalf("harness bug: generated a chain inside the nested table\n%v", level2[2])
+		return out
 	}
 
 	var sb strings.Builder
@@ -971,7 +977,6 @@ func runPipe(t *testing.T, r *rep.Reporter, c *rep.Case, idx int) {
 	fmt.Fprintf(&sb, "            deliver_to &%s\n        }\n    }\n", tgts[3].InstName)
 	fmt.Fprintf(&sb, "    default_destination {\n        deliver_to &%s\n    }\n}\n", tgts[0].InstName)
 	text := sb.String()
-	nestedTarget := tgts[3].InstName
 
 	pl, err := mx.BuildPipeline(text, nil)
 	if err != nil {
@@ -989,7 +994,7 @@ func runPipe(t *testing.T, r *rep.Reporter, c *rep.Case, idx int) {
 		if err != nil {
 			t.Fatalf("pipeline Start: %v", err)
 		}
-		pt := &pipeTxn{Accepted: map[string]bool{}, Failed: map[string]bool{}, Rewrote: map[string]bool{}, Effective: map[string]bool{}, Entangled: map[string]bool{}, FailedClean: map[string]bool{}, FailedNested: map[string]bool{}, Chained: map[string]bool{}}
+		pt := &pipeTxn{Accepted: map[string]bool{}, Failed: map[string]bool{}, Rewrote: map[string]bool{}, Effective: map[string]bool{}, Entangled: map[string]bool{}, FailedClean: map[string]bool{}, FailedCleanTop: map[string]bool{}, Chained: map[string]bool{}}
 		n := p.Range(1, 5)
 		var must []string
 		for _, j := range p.Perm(len(chainNamed)) {
@@ -1003,9 +1008,17 @@ func runPipe(t *testing.T, r *rep.Reporter, c *rep.Case, idx int) {
 			rcpt     string
 		}
 		effOf := map[string][]eff{}
-		ownersOf := map[string]map[string]bool{} // effective recipient -> client-supplied addresses it was handed to a target for
-		nestedDelivery := map[int]bool{}         // deliveries of the target inside the reroute
-		seenNested, seenTop := map[string]bool{}, map[string]bool{}
+		effVia := map[string]map[eff]map[string]bool{} // client -> nested (delivery, rcpt) -> outer finals it came through
+		ownersOuter := map[string]map[string]bool{}    // outer final address -> client-supplied addresses that reached it
+		ownersInner := map[string]map[string]bool{}    // effective address inside the reroute -> client-supplied addresses
+		nestedDelivery := map[int]bool{}               // deliveries of the target inside the reroute
+		modelMismatch := ""
+		own := func(m map[string]map[string]bool, k, a string) {
+			if m[k] == nil {
+				m[k] = map[string]bool{}
+			}
+			m[k][a] = true
+		}
 		rcptErr := map[string]string{}
 		for i := 0; i < n; i++ {
 			a := variantCase(p, prng.Pick(p, clients))
@@ -1019,6 +1032,8 @@ func runPipe(t *testing.T, r *rep.Reporter, c *rep.Case, idx int) {
 			before := lg.Len()
 			err := d.AddRcpt(ctx, a, smtp.RcptOptions{})
 			evs := lg.Events()[before:]
+			mdl := model(a)
+			k := 0
 			for _, e := range evs {
 				if e.Kind != "addrcpt" {
 					continue
@@ -1027,19 +1042,34 @@ func runPipe(t *testing.T, r *rep.Reporter, c *rep.Case, idx int) {
 				if e.Rcpt != a {
 					pt.Rewrote[a] = true
 				}
-				if ownersOf[e.Rcpt] == nil {
-					ownersOf[e.Rcpt] = map[string]bool{}
+				if k >= len(mdl) || mdl[k].target != e.Target || mdl[k].rcpt != e.Rcpt {
+					modelMismatch = fmt.Sprintf("AddRcpt(%q): target call #%d is %s(%q), model %v", a, k, e.Target, e.Rcpt, mdl)
+					k++
+					continue
 				}
-				ownersOf[e.Rcpt][a] = true // accepted by the target or not
-				if e.Target == nestedTarget {
+				m := mdl[k]
+				k++
+				// the pipeline records the original of an address before it hands
+				// it to a target, so the owner counts whether or not the target accepts
+				own(ownersOuter, m.final, a)
+				ef := eff{e.Delivery, e.Rcpt}
+				if m.nested {
+					own(ownersInner, e.Rcpt, a)
 					nestedDelivery[e.Delivery] = true
-					seenNested[e.Rcpt] = true
-				} else {
-					seenTop[e.Rcpt] = true
+					if effVia[a] == nil {
+						effVia[a] = map[eff]map[string]bool{}
+					}
+					if effVia[a][ef] == nil {
+						effVia[a][ef] = map[string]bool{}
+					}
+					effVia[a][ef][m.final] = true
 				}
 				if e.Class == mx.OK {
-					effOf[a] = append(effOf[a], eff{e.Delivery, e.Rcpt})
+					effOf[a] = append(effOf[a], ef)
 				}
+			}
+			if err == nil && k != len(mdl) && modelMismatch == "" {
+				modelMismatch = fmt.Sprintf("AddRcpt(%q) succeeded after %d target calls, model %v", a, k, mdl)
 			}
 			if err != nil {
 				rcptErr[a] = err.Error()
@@ -1085,29 +1115,25 @@ func runPipe(t *testing.T, r *rep.Reporter, c *rep.Case, idx int) {
 				tlog = append(tlog, e.String())
 			}
 		}
+		if modelMismatch != "" {
+			r.Count("pipe_routing_model_mismatch", 1)
+			c.Inconclusive("harness routing model disagrees with the observed target calls: " + modelMismatch)
+			continue
+		}
 		// Which failures can be attributed to ONE client-supplied recipient.
 		//
-		// collision (genuine N-to-1, contested, not judged): the effective
-		// recipient was handed to a target on behalf of two different
-		// client-supplied addresses in this transaction; OriginalRcpts keeps one.
+		// collision (genuine N-to-1, contested, not judged): two different
+		// client-supplied recipients of this transaction share an address at
+		// some level - the same OUTER final address (delivered to a top-level
+		// target, or an intermediate one handed to the nested pipeline), or the
+		// same effective address INSIDE the reroute. A reverse map keeps one
+		// original per address, so one of them loses.
 		//
-		// nested (suspected defect of the unchanged code, not judged unless
-		// VERIF_C09_JUDGE_NESTED=1): the delivery sits inside a reroute, whose
-		// statusCollector and the outer one both translate through the SAME
-		// OriginalRcpts map; if the client address itself is something a table
-		// can produce (a chain), the second translation walks one alias too far.
-		// Decided conservatively from the generated tables.
-		//
-		// Everything else - including chains where the effective address of one
-		// recipient is the client spelling of another that is rewritten further -
-		// is judged.
+		// Everything else is judged: chains where the effective address of one
+		// recipient is the client spelling of another that is rewritten further,
+		// at top level and (since 43fc457) inside the nested pipeline, chains
+		// inside the nested table included.
 		nFailed := 0
-		hazard := false
-		for e, os := range ownersOf {
-			if len(os) > 1 || (seenNested[e] && seenTop[e]) {
-				hazard = true // also when the colliding AddRcpt calls were refused in the end
-			}
-		}
 		if modFail {
 			r.Count("pipe_transactions_failed_by_body_modifier", 1)
 		}
@@ -1115,27 +1141,31 @@ func runPipe(t *testing.T, r *rep.Reporter, c *rep.Case, idx int) {
 			if modFail {
 				pt.Failed[a] = true
 				pt.FailedClean[a] = true
+				pt.FailedCleanTop[a] = true
 			}
 			for _, ef := range effOf[a] {
-				// (an address delivered both inside and outside the reroute has two
-				// writers in the map as well, even for one owner)
-				collision := len(ownersOf[ef.rcpt]) > 1 || (seenNested[ef.rcpt] && seenTop[ef.rcpt])
-				if collision || nestedDelivery[ef.delivery] && (tableValue[strings.ToLower(a)] || innerKey[strings.ToLower(ef.rcpt)]) {
-					hazard = true
+				nested := nestedDelivery[ef.delivery]
+				collision := false
+				if nested {
+					collision = len(ownersInner[ef.rcpt]) > 1
+					for x := range effVia[a][ef] {
+						if len(ownersOuter[x]) > 1 {
+							collision = true
+						}
+					}
+				} else {
+					collision = len(ownersOuter[ef.rcpt]) > 1
 				}
-				nested := nestedDelivery[ef.delivery] &&
-					(tableValue[strings.ToLower(a)] || innerChain || innerKey[strings.ToLower(ef.rcpt)])
 				if collision {
 					pt.Entangled[a] = true
 				}
 				if failedAt[ef] || wholeFail[ef.delivery] {
 					pt.Failed[a] = true
-					switch {
-					case collision:
-					case nested:
-						pt.FailedNested[a] = true
-					default:
+					if !collision {
 						pt.FailedClean[a] = true
+						if !nested {
+							pt.FailedCleanTop[a] = true
+						}
 					}
 				}
 			}
@@ -1147,28 +1177,15 @@ func runPipe(t *testing.T, r *rep.Reporter, c *rep.Case, idx int) {
 				r.Count("pipe_client_rcpt_that_is_also_a_rewrite_output", 1)
 				if pt.FailedClean[a] {
 					r.Count("pipe_chained_client_rcpt_failures_judged", 1)
+					if !pt.FailedCleanTop[a] {
+						r.Count("pipe_chained_client_rcpt_failures_judged_nested_only", 1)
+					}
 				}
 			}
 		}
 		r.Count("pipe_client_rcpt_entangled_n_to_1", int64(len(pt.Entangled)))
 		pt.JudgeNested = judgeNested
-		// The nested pipeline records ITS client address (an outer rewrite
-		// output routed into the reroute, domain d2) in the shared map; in a
-		// collision / nested-chain transaction the unchanged code can report
-		// under it. Such a key is excused (counted) only in those transactions.
-		if hazard && !judgeNested {
-			pt.Excused = map[string]bool{}
-			for _, k := range pt.Calls {
-				lk := strings.ToLower(k.Key)
-				if _, dom := splitAddr(lk); dom == "d2.example" && tableValue[lk] {
-					pt.Excused[k.Key] = true
-				}
-			}
-		}
-		fs, unjCollision, unjNested, excused := judgePipe(pt)
-		if excused > 0 {
-			r.Count("pipe_foreign_key_nested_client_address_observed_not_judged", int64(excused))
-		}
+		fs, unjCollision, unjNested := judgePipe(pt)
 		if unjCollision > 0 {
 			r.Count("pipe_collision_missing_failure_observed_not_judged", int64(unjCollision))
 		}
